@@ -39,8 +39,9 @@ func readStreamedBlock(r io.Reader, scale uint8) (block *labels.Block, compresse
 		return
 	}
 	bcoord := dvid.ChunkPoint3d{bx, by, bz}.ToIZYXString()
-	compressed = make([]byte, numBytes)
-	n, err = io.ReadFull(r, compressed)
+	// numBytes comes from the payload: read what actually arrives instead of allocating on its word.
+	compressed, err = ioutil.ReadAll(io.LimitReader(r, int64(numBytes)))
+	n = len(compressed)
 	if n != numBytes || err != nil {
 		err = fmt.Errorf("error reading %d bytes for block %s: %d actually read (%v)", numBytes, bcoord, n, err)
 		return
